@@ -164,11 +164,12 @@ func constToVal(c *types.Const) (Val, error) {
 }
 
 func (ce *CEnv) lookupIdent(name string) (Val, error) {
-	if v, ok := ce.vars[name]; ok {
-		return v, nil
-	}
+	// an address-taken variable lives in its cell: the cell's current content is authoritative
 	if p, ok := ce.vars["&"+name]; ok {
 		return ce.x.loadWF(ce.st, derefPtr(p)), nil
+	}
+	if v, ok := ce.vars[name]; ok {
+		return v, nil
 	}
 	if g, ok := ce.st.ghost[name]; ok {
 		return g, nil
